@@ -3,6 +3,8 @@
 TECH = "deterministic simulation with fault injection: "
 
 ENGINES = [
+    {"name": "lssim", "path": "vsim/engines/lssim.py", "serves_properties": ["C14", "C18"],
+     "kind_free_text": "tree generator + listing model; lazy listing single-stepped under a mutating readdir seam; transfer commands vs listing"},
     {"name": "evsim15", "path": "vsim/engines/evsim15.py", "serves_properties": ["C15"],
      "kind_free_text": "stub observer -> real DigitalRFEventHandler; differential oracle against the real listing"},
     {"name": "evsim16", "path": "vsim/engines/evsim16.py", "serves_properties": ["C16"],
@@ -121,6 +123,28 @@ CHECKS = {
         "note": "readers use default arguments (accept_empty=True); reader-side I/O faults are not injected (not in the "
                 "quantifier); interleaving is at call granularity as the property states.",
     },
+    "C14": {
+        "engine": "lssim", "level": "exploration", "design_ref": "DESIGN.md 5/C14",
+        "technique": TECH + "generated trees x flag/window combinations against a set-theoretic listing model, plus the lazy listing generator single-stepped while subdirectories vanish / empty / grow between enumeration and listing (readdir seam)",
+        "text": "Static part: every query's result must contain exactly the model's files (each once, window inclusive on "
+                "the name time, metadata forward-fill extra, properties per their own flags, nothing tmp/stray/near-miss), "
+                "per-channel time order must be ascending (descending reversed), and reversing must not change the set. "
+                "Concurrent part: ilsdrf advanced item by item while the simulator deletes, empties or extends a "
+                "subdirectory right before it is listed: never raises, lists every in-window file that existed throughout "
+                "once, nothing that no intermediate tree contains.",
+        "note": "trees are empty files with the format's names; where the statement does not settle the forward-fill "
+                "reading (a file exactly on start, RF-named files of both-kind directories, ties) both readings are "
+                "accepted; a root that is itself a time-stamped subdirectory is not generated.",
+    },
+    "C18": {
+        "engine": "lssim", "level": "exploration", "design_ref": "DESIGN.md 5/C18",
+        "technique": TECH + "differential input sampling inside the simulator's tree generator: drf cp/mv/ln vs the equivalent listing on a pristine copy, real recordings as content",
+        "text": "Destination file set == files the equivalent lsdrf selects (same relative paths); cp/mv byte-identical, "
+                "ln same inode or a symlink resolving to the source; source fingerprint unchanged (cp, ln) or original minus "
+                "transferred (mv); a reader on the destination equals a reader on the source over every transferred RF file.",
+        "note": "said plainly: no schedule or fault occurs in this property; it is claimed because the harness exists and the "
+                "oracle is exact (readdir order is the only simulated nondeterminism). The listing itself is C14's subject.",
+    },
     "C15": {
         "engine": "evsim15", "level": "exploration", "design_ref": "DESIGN.md 5/C15",
         "technique": TECH + "stub observer feeding the real event handler with events derived from a real recorder's FS-op trace plus seeded noise over the path grammar; differential oracle = the real listing",
@@ -199,8 +223,6 @@ NOT_APPLICABLE = {
     "C03": "pure integer function of (index, n, d): no state, I/O, schedule, clock or fault for a simulator to vary; "
            "deciding it is input enumeration or proof, i.e. another technique (DESIGN.md section 6)",
 }
-for _p in ("C14", "C18"):
-    NOT_APPLICABLE.setdefault(_p, _PENDING)
 
 NOTES = ("All checks: bin/check <id> [--tier quick|thorough] [--replay file]; exit 0 held / 1 VIOLATION / 2 harness "
          "error (never a pass). VERIF_SEED selects the seed (default 20261004). Findings policy: known_findings.json.")
